@@ -12,7 +12,7 @@ from .report import Report
 def family(prog):
     """the per-machine vectors: every Vec-typed field of Framework (read from the ADT table)"""
     a = prog.adt('maybenot::framework::Framework')
-    fam = tuple(f['name'] for f in a['variants'][0]['fields'] if f['ty'].startswith('std::vec::Vec<'))
+    fam = tuple(f['name'] for f in a['variants'][0]['fields'] if ('vec::Vec<' in f['ty'].split('<')[0] + '<'))
     if 'runtime' not in fam or 'actions' not in fam:
         raise AnchorMissing('Framework.runtime / Framework.actions vectors')
     return fam
@@ -533,7 +533,7 @@ def check_C01(ctx, rep):
                 if all(fa.cfg.dominates(nb, x) for x in srcs) or nb == h:
                     f = fa.blocks[nb]['t']['f']
                     self_ty = f.get('self_ty', '') + ' ' + callee_str(f)
-                    finite = any(k in self_ty for k in ('ops::Range<', 'range::Range<', 'slice::Iter<', 'slice::IterMut<', 'iter::Zip<', 'iter::Enumerate<', 'ops::Range<A>', 'std::ops::Range'))
+                    finite = any(k in self_ty for k in ('Range<', 'slice::iter::Iter<', 'slice::Iter<', 'IterMut<', 'Zip<', 'Enumerate<'))
                     ok = finite
                     why = 'advances %s' % callee_str(f)
             rep.ob('C01.R3', fn, 'loop@%s' % ('L%d' % fa.blocks[h]['ln']), ok, why, site='%s:%d' % (fn.file, fa.blocks[h]['ln']))
